@@ -6,6 +6,7 @@ Abstraction: rows(x)(i) = data[entry_starts(i) : entry_ends(i)),  field(x)(i,f) 
 Proved: selection (__getitem__ with any integer index array) composes gathers and keeps rows/fields; compaction
 (_make_contigous) keeps rows/fields, re-bases every offset and makes data the concatenation of the selected rows
 in the selected order - the first sentence of the property for every composition of selections.
+The same two clauses for the BAM record extractor (BamBufferExtractor.__getitem__ / _make_contigous).
 """
 import types
 import z3
@@ -18,7 +19,7 @@ ASSUMPTIONS = ["npstructures: EncodedRaggedArray(data, RaggedView2(starts, lens)
                "EncodedArray / EncodedRaggedArray are transparent wrappers"]
 NOT_PROVED = ["LazyBNPDataClass.get_buffer decision logic and the modified-write path (join of original text and formatted new columns): bounded",
               "concatenate for an arbitrary number of buffers (proved for exactly 2 and 3): bounded for the rest",
-              "BAM record selection/compaction is in C16's bounded check", "boolean-mask and slice selections are covered through "
+              "boolean-mask and slice selections are covered through "
               "their NumPy meaning as index arrays (assumed) - bounded"]
 
 
@@ -211,4 +212,88 @@ cat2 = Contract("C04.TextThroughputExtractor.concatenate[2 buffers]", target=lam
 cat3 = Contract("C04.TextThroughputExtractor.concatenate[3 buffers]", target=lambda: _T().concatenate.__func__, setup=_setup_cat(3), requires=_req_cat, ensures=_ens_cat,
                 canaries=[("field starts not shifted", "starts = np.concatenate([b._field_starts + offset", "starts = np.concatenate([b._field_starts + 0*offset")])
 
-CONTRACTS = [make_contiguous, getitem, fields_by_range, cat2, cat3]
+
+
+# --- BAM: BamBufferExtractor.__getitem__ / _make_contigous (record selection and compaction of binary records) ----------------------
+def _X():
+    from bionumpy.io.bam import BamBufferExtractor
+    return BamBufferExtractor
+
+
+def _bam_extractor(contiguous):
+    n, N = z3.Int("n"), z3.Int("N")
+    D, es, ee = (z3.Function(k, z3.IntSort(), z3.IntSort()) for k in ("D", "rec_start", "rec_end"))
+    x = types.SimpleNamespace(n=n, N=N, D=D, es=es, ee=ee)
+    x.obj = SRec(_X(), _data=SArr.fresh(N, lambda p: D(I(p))), _new_lines=SArr.fresh(n, lambda i: es(I(i))), _ends=SArr.fresh(n, lambda i: ee(I(i))),
+                 _header_data=[], _is_contigous=contiguous)
+    return x
+
+
+def _wf_bam(x):
+    return [x.n >= 0, x.N >= 0,
+            Forall(lambda i: Implies(in_range(i, x.n), And(0 <= x.es(i), x.es(i) <= x.ee(i), x.ee(i) <= x.N)), triggers=[x.es], name="WF.records"),
+            Forall(lambda i: Implies(in_range(i, x.n), And(0 <= x.es(i), x.es(i) <= x.ee(i), x.ee(i) <= x.N)), triggers=[x.ee], name="WF.records'")]
+
+
+def _setup_bmc(ctx):
+    st = St()
+    st.x = _bam_extractor(False)
+    st.selfv, st.args = st.x.obj, []
+    return st
+
+
+def _ens_bmc(ctx, st, ret):
+    x, o = st.x, st.x.obj
+    data, ns, ne = o.get("_data"), o.get("_new_lines"), o.get("_ends")
+    return [("flag", o.get("_is_contigous") is True),
+            ("shapes", And(ns.length == x.n, ne.length == x.n)),
+            ("records.tile.the.data", And(Implies(x.n > 0, And(ns.at(0) == 0, ne.at(x.n - 1) == data.length)), Implies(x.n == 0, I(data.length) == 0))),
+            ("records.consecutive", Forall(lambda i: Implies(And(in_range(i, x.n), i + 1 < x.n), ne.at(i) == ns.at(i + 1)))),
+            ("record.length.kept", Forall(lambda i: Implies(in_range(i, x.n), I(ne.at(i)) - I(ns.at(i)) == x.ee(i) - x.es(i)))),
+            ("records.kept: new data is the concatenation of the selected records in the selected order",
+             Forall(lambda i, k: Implies(And(in_range(i, x.n), in_range(k, x.ee(i) - x.es(i))), data.at(I(ns.at(i)) + k) == x.D(x.es(i) + k)), nvars=2))]
+
+
+def _hints_bmc(ctx, st, ks):
+    ns = st.x.obj.get("_new_lines")
+    out = []
+    for k in ks[:1]:
+        out += [ns.at(k), ns.at(k + 1)]
+    return out
+
+
+bam_make_contiguous = Contract("C04.BamBufferExtractor._make_contigous", target=lambda: _X()._make_contigous, setup=_setup_bmc,
+                               requires=lambda ctx, st: _wf_bam(st.x), ensures=_ens_bmc, hints=_hints_bmc,
+                               canaries=[("record lengths off by one", "lens = self._ends - self._new_lines", "lens = self._ends - self._new_lines - 1"),
+                                         ("ends shifted", "self._ends = new_starts[1:]", "self._ends = new_starts[:-1]"),
+                                         ("rows taken from the record ends", "RaggedView2(self._new_lines, lens)", "RaggedView2(self._ends, lens)")])
+
+
+def _setup_bgi(ctx):
+    st = St()
+    st.x = _bam_extractor(True)
+    st.m = z3.Int("m")
+    st.idx = z3.Function("idx", z3.IntSort(), z3.IntSort())
+    st.selfv = st.x.obj
+    st.args = [SArr.fresh(st.m, lambda j: st.idx(I(j)))]
+    return st
+
+
+def _ens_bgi(ctx, st, ret):
+    x = st.x
+    data, ns, ne = ret.get("_data"), ret.get("_new_lines"), ret.get("_ends")
+    return [("not.contiguous", ret.get("_is_contigous") is False),
+            ("same.bytes", data is x.obj.get("_data")),
+            ("header.kept", ret.get("_header_data") is x.obj.get("_header_data")),
+            ("records.selected", Forall(lambda j: Implies(in_range(j, st.m), And(ns.at(j) == x.es(st.idx(j)), ne.at(j) == x.ee(st.idx(j)))))),
+            ("class.kept", ret._cls is _X())]
+
+
+bam_getitem = Contract("C04.BamBufferExtractor.__getitem__[index array]", target=lambda: _X().__getitem__, setup=_setup_bgi,
+                       requires=lambda ctx, st: _wf_bam(st.x) + [st.m >= 0, Forall(lambda j: Implies(in_range(j, st.m), in_range(st.idx(j), st.x.n)), triggers=[st.idx], name="indices in range")],
+                       ensures=_ens_bgi,
+                       callees={"bionumpy.encoded_array.as_encoded_array": lambda ip, args, kwargs, lineno: Opaque("chromosome names (header)")},
+                       canaries=[("ends not selected", "self._ends[item]", "self._ends"),
+                                 ("claims contiguous", "is_contigous=False", "is_contigous=True")])
+
+CONTRACTS = [make_contiguous, getitem, fields_by_range, cat2, cat3, bam_make_contiguous, bam_getitem]
